@@ -260,3 +260,14 @@ pub fn replay(ctx: &Ctx, sub: &str, case: &Value) -> Result<(), String> {
     }
     Ok(())
 }
+
+pub fn fuzz_strategy() -> impl Strategy<Value = SigVal> {
+    strategy(4096)
+}
+
+/// in-process evaluation (used by the fuzz target, which is itself built with AddressSanitizer)
+pub fn eval_inprocess(v: &SigVal) -> Eval {
+    let o = probe(v, v.len() <= 64);
+    judge(v, &o).map_err(Fail::new)?;
+    Ok(Report::new(v.len() > 0))
+}
